@@ -30,4 +30,15 @@ for i in range(4000):
         bad += 1
         print("MISMATCH", cls, data.hex(), meta, p.as_bytes().hex() if p else None)
 print(f"{n - bad}/{n} hand-encoded datagrams agree with the library's encoder/decoder")
+# the C07 oracle's hand-written packet CRC-32 against the library's engine
+from checks import air
+from okdmr.dmrlib.etsi.crc.crc32 import CRC32
+m = 0
+for i in range(3000):
+    d = bytes(r.choice([0, 0, 0xFF, r.getrandbits(8)]) for _ in range(r.choice([0, 1, 2, 3, 5, 8, 20, 33, 200])))
+    m += 1
+    if air.ref_crc32(d) != CRC32.calculate(d):
+        bad += 1
+        print("CRC32 MISMATCH", d.hex())
+print(f"hand-written CRC-32 agrees with the library on {m} octet strings" if not bad else "CRC-32 reference disagrees")
 sys.exit(1 if bad else 0)
